@@ -544,6 +544,12 @@ static int read_taskinfo(void *arg)
 
 			while (*endp != '\n') {
 				int tid = strtol(tids_str, &endp, 10);
+
+				/* more ids than the nr_tid line announced */
+				if (nr_tid >= info->nr_tid) {
+					free(tids);
+					goto out;
+				}
 				tids[nr_tid++] = tid;
 
 				if (*endp != ',' && *endp != '\n') {
